@@ -73,8 +73,13 @@ func hdrVal(k, v int) string {
 	case 2:
 		return strconv.Itoa(v)
 	case 3:
-		if v == 1 {
+		switch v {
+		case 1:
 			return "gzip"
+		case 3:
+			return "zstd"
+		case 4:
+			return "aes128gcm"
 		}
 		return "br"
 	}
@@ -193,6 +198,10 @@ func wrExchange(h http.Handler, probe *handlerProbe, c WrCase) wrView {
 	case "":
 	case "gzip":
 		v.ce = 1
+	case "zstd":
+		v.ce = 3
+	case "aes128gcm":
+		v.ce = 4
 	default:
 		v.ce = 2
 	}
@@ -400,7 +409,7 @@ func genWrCase(g *Rng) WrCase {
 		c.Script = append(c.Script, WrOp{K: "set", Key: 10 + g.Intn(3), Val: g.Range(1, 99)})
 	}
 	if g.Chance(8) {
-		c.Script = append(c.Script, WrOp{K: "set", Key: 3, Val: g.Range(1, 2)})
+		c.Script = append(c.Script, WrOp{K: "set", Key: 3, Val: g.Range(1, 4)})
 	}
 	if g.Chance(10) {
 		c.Script = append(c.Script, WrOp{K: "head", Code: 103})
@@ -422,7 +431,7 @@ func genWrCase(g *Rng) WrCase {
 	status := 200
 	explicit := g.Chance(65)
 	if explicit {
-		status = []int{200, 200, 201, 204, 304, 301, 302, 404, 404, 500, 503, 202, 400, 413, 429, 416}[g.Intn(16)]
+		status = []int{200, 200, 201, 204, 304, 301, 302, 404, 404, 500, 503, 202, 400, 413, 429, 416, 599, 600, 799, 999}[g.Intn(20)]
 	}
 	total := []int{0, 1, limit - 1, limit, limit + 1, limit + 7, gz.GzMin - 1, gz.GzMin, gz.GzMin + 1, g.Range(0, 60), 2 * limit}[g.Intn(11)]
 	if total < 0 {
@@ -438,6 +447,9 @@ func genWrCase(g *Rng) WrCase {
 			cl = []int{limit + 1, 10 * limit, 100000, 10485761, 20000000}[g.Intn(5)] // entity length of a body-less response
 		}
 		c.Script = append(c.Script, WrOp{K: "set", Key: 2, Val: cl})
+	}
+	if g.Chance(5) { // an empty Write first (an empty preamble): it settles the implicit 200 like any other Write
+		c.Script = append(c.Script, WrOp{K: "write", N: 0})
 	}
 	if explicit {
 		c.Script = append(c.Script, WrOp{K: "head", Code: status})
@@ -517,6 +529,13 @@ func wrCorpus() []WrCase {
 		{Chain: []WrPlug{gz(16, false)}, AE: "gzip", Method: "GET", Script: []WrOp{{K: "set", Key: 1, Val: 0}, {K: "write", N: 15}}},
 		{Chain: []WrPlug{gz(16, false)}, AE: "gzip", Method: "GET", Script: []WrOp{{K: "set", Key: 1, Val: 0}, {K: "write", N: 16}}},
 		{Chain: []WrPlug{gz(16, false)}, AE: "gzip", Method: "GET", Script: []WrOp{{K: "set", Key: 1, Val: 3}, {K: "write", N: 40}}},
+		// an empty first Write settles the implicit 200; codings other than the usual three are encodings too; statuses above 599
+		{Chain: []WrPlug{gz(16, false)}, AE: "gzip", Method: "GET", Script: []WrOp{{K: "set", Key: 1, Val: 0}, {K: "write", N: 0}, {K: "head", Code: 404}, {K: "write", N: 40}}},
+		{Chain: []WrPlug{sl(10, 100)}, AE: "\x00", Method: "GET", Script: []WrOp{{K: "write", N: 0}, {K: "head", Code: 500}, {K: "write", N: 4}}},
+		{Chain: []WrPlug{gz(16, false)}, AE: "gzip", Method: "GET", Script: []WrOp{{K: "set", Key: 1, Val: 0}, {K: "set", Key: 3, Val: 3}, {K: "set", Key: 2, Val: 40}, {K: "write", N: 40}}},
+		{Chain: []WrPlug{gz(16, false)}, AE: "gzip", Method: "GET", Script: []WrOp{{K: "set", Key: 1, Val: 0}, {K: "set", Key: 3, Val: 4}, {K: "write", N: 40}}},
+		{Chain: []WrPlug{sl(10, 100)}, AE: "\x00", Method: "GET", Script: []WrOp{{K: "head", Code: 999}, {K: "write", N: 4}}},
+		{Chain: []WrPlug{sl(10, 100)}, AE: "\x00", Method: "GET", Script: []WrOp{{K: "head", Code: 600}}},
 		// a Flush before anything else, then a body that would qualify for compression
 		{Chain: []WrPlug{gz(16, false)}, AE: "gzip", Method: "GET", Script: []WrOp{{K: "set", Key: 1, Val: 0}, {K: "flush"}, {K: "write", N: 40}}},
 		{Chain: []WrPlug{gz(16, false)}, AE: "gzip", Method: "GET", Script: []WrOp{{K: "flush"}, {K: "set", Key: 1, Val: 0}, {K: "head", Code: 201}, {K: "write", N: 40}}},
